@@ -180,6 +180,38 @@ static void run_background(void)
 	rcu_unregister_thread();
 }
 
+/* the last registered owner unregisters (which stops the reclaimer) while a new owner registers, queues one call and makes no
+ * further API call: whichever way the two interleave, a reclaimer must be there afterwards to run it.  needs two_owners=1 */
+static int owner1_ran(void *a) { (void)a; return (int)vrt_note_get(RN(1)) >= 1; }
+
+static void *late_owner(void *a)
+{
+	(void)a;
+	rcu_register_thread();
+	VRT_CHECK(rcu_defer_register_thread() == 0, "rcu_defer_register_thread failed");
+	do_defer(1, 0, (void *)0x1008);
+	BLOCKING(vrt_await(owner1_ran, NULL));
+	check_log("rereg_race", 1, 1);
+	BLOCKING(rcu_defer_unregister_thread());
+	rcu_unregister_thread();
+	return NULL;
+}
+
+static void run_rereg_race(void)
+{
+	pthread_t o;
+
+	rcu_register_thread();
+	rcu_defer_register_thread();
+	if (vrt_param("pending", 0))
+		do_defer(0, 1, (void *)0x2000);	/* the leaving owner still has a call queued */
+	pthread_create(&o, NULL, late_owner, NULL);
+	BLOCKING(rcu_defer_unregister_thread());
+	check_log("rereg_race/unregister", 0, 1);
+	BLOCKING(pthread_join(o, NULL));
+	rcu_unregister_thread();
+}
+
 /* owner defers then calls the barrier itself, racing with the reclaimer */
 static void run_barrier(void)
 {
@@ -332,6 +364,7 @@ struct vrt_scenario vrt_scenarios[] = {
 	{ "seq", run_seq, "all operation sequences of length len over (fct,arg) x barrier x re-registration" },
 	{ "background", run_background, "reclaimer runs queued calls with no further API call || reader" },
 	{ "barrier", run_barrier, "owner barrier racing with the reclaimer || reader" },
+	{ "rereg_race", run_rereg_race, "the last owner unregisters (reclaimer stops) || a new owner registers and relies on the background reclaimer" },
 	{ "wrap", run_wrap, "queue wrap-around / self flush with the reclaimer active" },
 	{ "two_owners", run_two_owners, "two owners, third-party barrier, unregistration" },
 	{ "late_reader", run_late_reader, "a section beginning after the reclaimer's grace period started pre-exists a later defer_rcu" },
